@@ -7,6 +7,7 @@ rejected.  Both sides are decided by the real loader.
 
 import io
 import os
+import posixpath
 import shutil
 
 from . import c05
@@ -172,13 +173,31 @@ def reused_loader_load(ctx, loader, layout, main, dirpath, rng, poison):
 def compare(ctx, schema, corpus, text, case_extra, rng, dirpath, tag="",
             loader=None, xml=None):
     res = ctx.res
-    layout = cuts.cut_text(rng, text)
+    layout = cuts.cut_text(rng, text, styled=True)
     if layout is None:
         res.count("uncuttable")
         return
     res.evaluations += 1
     shutil.rmtree(dirpath, ignore_errors=True)
     main = layout.write(dirpath)
+    for st in layout.ref_styles.values():
+        res.count("reference_" + st)
+    # decoys: files named like the fragments in every other directory of
+    # the layout (and in the working directory); a reference names one
+    # file, and these are not it
+    dirs = set(os.path.dirname(os.path.join(dirpath, *rel.split("/")))
+               for rel in layout.files)
+    dirs.add(dirpath)
+    dirs.add(os.getcwd() if os.getcwd().startswith(ctx.tmp) else dirpath)
+    for rel in layout.files:
+        if rel == "b/main.conf":
+            continue
+        for dd in dirs:
+            fp = os.path.join(dd, posixpath.basename(rel))
+            if not os.path.lexists(fp):
+                with open(fp, "w") as f:
+                    f.write("zcv-decoy (\n")
+                res.count("decoys")
     if loader is not None:
         poison = rng.random() < 0.4
         o_re = reused_loader_load(ctx, loader, layout, main, dirpath, rng,
@@ -263,7 +282,7 @@ def compare(ctx, schema, corpus, text, case_extra, rng, dirpath, tag="",
     # the whole text at the end of a long chain of includes ("to any
     # include depth")
     if rng.random() < 0.08:
-        n = rng.randint(9, 16)
+        n = rng.choice([rng.randint(9, 16), rng.randint(17, 40)])
         lay = cuts.Layout()
         names = []
         for k in range(n):
@@ -358,6 +377,37 @@ def compare(ctx, schema, corpus, text, case_extra, rng, dirpath, tag="",
                                      text=text),
                                 "rejected", "accepted",
                                 detail="files=%r" % (lay.texts(),))
+    # a fragment that refers to a file which is not where the reference
+    # says, while a file of that name lies beside the outer file: refused
+    if o_in[0] == "ok" and ranges and rng.random() < 0.3:
+        i, j = rng.choice(ranges)
+        lay = cuts.Layout()
+        lay.files["b/sub/deep/outer.conf"] = [("inc", "b/sub/deep/in.conf",
+                                               "")]
+        lay.files["b/sub/deep/in.conf"] = list(lines[i:j])
+        lay.files["b/main.conf"] = lines[:i] + \
+            [("inc", "b/sub/deep/outer.conf", "")] + lines[j:]
+        res.evaluations += 1
+        shutil.rmtree(dirpath, ignore_errors=True)
+        main = lay.write(dirpath)
+        real = os.path.join(dirpath, "b", "sub", "deep", "in.conf")
+        for beside in (os.path.join(dirpath, "b", "in.conf"),
+                       os.path.join(dirpath, "in.conf")):
+            shutil.copy(real, beside)
+        os.remove(real)
+        o = load_path(schema, main)
+        res.count("missing_target_with_namesake_elsewhere")
+        res.sig("%s|missing-target|%s" % (corpus, o[0]))
+        if o[0] == "ok" or o[1] != "config":
+            res.violate("reference-resolved-somewhere-else",
+                        dict(case_extra, text=text, files=lay.texts(),
+                             corpus=corpus, missing="b/sub/deep/in.conf"),
+                        "rejected with a configuration error (the file "
+                        "referred to does not exist)",
+                        list(o[:2]) if o[0] == "ok" else list(o[:6]),
+                        detail="files=%r, b/sub/deep/in.conf moved to "
+                        "b/in.conf and in.conf" % (lay.texts(),),
+                        vsig="missing-target|%s" % o[0])
     # negative family
     if o_in[0] == "ok":
         bad = cuts.cut_text(rng, text, unbalanced=True)
@@ -500,7 +550,7 @@ def replay_imports(ctx, case):
             p = os.path.join(d, *rel.split("/"))
             os.makedirs(os.path.dirname(p), exist_ok=True)
             with open(p, "w") as f:
-                f.write(text)
+                f.write(cuts.materialise(text, d))
         o_cut = load_path(schema, os.path.join(d, "b", "main.conf"))
         if case.get("unbalanced"):
             if o_cut[0] == "ok":
@@ -527,7 +577,7 @@ def replay(ctx, case):
         p = os.path.join(d, *rel.split("/"))
         os.makedirs(os.path.dirname(p), exist_ok=True)
         with open(p, "w") as f:
-            f.write(text)
+            f.write(cuts.materialise(text, d))
     o_cut = load_path(schema, os.path.join(d, "b", "main.conf"))
     if case.get("unbalanced"):
         if o_cut[0] == "ok":
